@@ -52,3 +52,52 @@ void panic(const char *filename, int line, const char *fmt, ...) {
     else
         fprintf(stderr, "%s\n", buffer);
 }
+
+#ifdef CGREEN_VERIF
+#include <signal.h>
+#include <unistd.h>
+#include <cgreen/reporter.h>
+#include <cgreen/breadcrumb.h>
+#include "verif_hooks.h"
+
+void cgreen_verif_killpoint(const char *point) {
+    static char counted_point[64];
+    static int count = 0;
+    static pid_t counting_pid = 0;
+    const char *plan = getenv("CGREEN_VERIF_KILL");
+    char wanted_point[64], how[16], test[256];
+    int occurrence = 0, fields;
+    TestReporter *reporter;
+
+    if (plan == NULL)
+        return;
+    test[0] = '\0';
+    fields = sscanf(plan, "%63[^:]:%d:%15[^:]:%255s", wanted_point, &occurrence, how, test);
+    if (fields < 3 || strcmp(wanted_point, point) != 0)
+        return;
+    if (test[0] != '\0') {
+        const char *current;
+        reporter = get_test_reporter();
+        if (reporter == NULL)
+            return;
+        current = get_current_from_breadcrumb(reporter->breadcrumb);
+        if (current == NULL || strcmp(current, test) != 0)
+            return;
+    }
+    if (counting_pid != getpid() || strcmp(counted_point, point) != 0) {
+        /* occurrences are counted per process */
+        counting_pid = getpid();
+        strcpy(counted_point, point);
+        count = 0;
+    }
+    if (++count != occurrence)
+        return;
+    if (strcmp(how, "exit") == 0)
+        exit(0);
+    if (strcmp(how, "_exit") == 0)
+        _exit(0);
+    kill(getpid(), atoi(how));
+    for (;;)
+        pause();
+}
+#endif
